@@ -23,16 +23,16 @@ import (
 )
 
 type dia struct {
-	name    string
-	reg     *schemahcl.TypeRegistry
-	format  func(schema.Type) (string, error)
-	parse   func(string) (schema.Type, error)
-	marshal func(any) ([]byte, error)
-	eval    func([]byte, any) error
-	differ  schema.Differ
-	schema  string
+	name     string
+	reg      *schemahcl.TypeRegistry
+	format   func(schema.Type) (string, error)
+	parse    func(string) (schema.Type, error)
+	marshal  func(any) ([]byte, error)
+	eval     func([]byte, any) error
+	differ   schema.Differ
+	schema   string
 	comments bool
-	show    []string
+	show     []string
 }
 
 type obs struct {
